@@ -113,6 +113,10 @@ def rule(ctx, rep, prop, focus):
     fclo = facts.fns[clo]
     import c12 as _c12h
     _c12h.inherit_h7(ctx, rep, prop)   # the pipeline's output must reach the caller untouched
+    import c14 as _c14t
+    rep.rule("R8a", "inherits C14 R8 (a) (re-evaluated here): the per-file closure returns Some(the tree that went through the stages) - the resolved kinds / propagated oneway flags "
+                    "this property speaks of are in the tree the caller receives")
+    _c14t.tree_result_rule(ctx, rep, prop, "R8a")
     if prop not in ("C07", "C11"):     # (those two evaluate it themselves)
         import c03 as _c03
         rep.rule("S6", "inherits C03 S6 (re-evaluated here): validation only appends to a file's diagnostics (push / final sort); the per-file closure returns the entry's id and the stored vector - "
